@@ -1,7 +1,7 @@
 CONSTANTS
-  NP = 1
+  NP = 2
   NLines = 2
-  Dev = {}
+  Dev = {"exit_on_failed_pop_when_stopping"}
   Lvls = {TRUE, FALSE}
   TwoPhase = FALSE
   Grain = "stmt"
@@ -12,5 +12,4 @@ INVARIANT InvProducerOrder
 INVARIANT InvSeqConsecutive
 INVARIANT InvRetIffAccepted
 INVARIANT InvStopComplete
-PROPERTY StopReturns
 CHECK_DEADLOCK FALSE
